@@ -431,4 +431,767 @@ theorem fill_parts : (ps : List Node) → wfParts (fillNP dm ps) = true → (∀
 end
 end
 
+/-! ### Executable twins of `pr`, `reqs`, `wf`
+
+The model's `pr`, `reqs` and `wf` are compiled by well-founded recursion (`prIndex`/`reqsI`/`wfIndex` call back on
+the same node), so the kernel cannot evaluate them on a concrete table.  `pr2`, `reqs2`, `wf2` are the same
+functions by structural recursion (the subscript cases inlined); `pr2_eq`, `reqs2_eq`, `wf2_eq` prove them equal
+for every tree, so that a `decide` over a regenerated table speaks about the model's functions. -/
+
+mutual
+def pr2 : Node → Toks
+  | .name s => [.name s]
+  | .member e a => (if isIntLit e then lparen ++ pr2 e ++ rparen else wrap 16 e.prec (pr2 e)) ++ [.t ".", .name a]
+  | .int v => [.num (intChars v)]
+  | .float s => [.num s]
+  | .complex s => [.num s]
+  | .str v => [.str v]
+  | .bytes v => [.bytes v]
+  | .ellipsis => [.t "..."]
+  | .dict items => [.t "{"] ++ commaSep (pr2Dict items) ++ [.t "}"]
+  | .tuple items => [.t "("] ++ commaSep (pr2Items items) ++ (if items.length = 1 then [.t ","] else []) ++ [.t ")"]
+  | .list items => [.t "["] ++ commaSep (pr2Items items) ++ [.t "]"]
+  | .set items => [.t "{"] ++ commaSep (pr2Items items) ++ [.t "}"]
+  | .call f args => wrap 16 f.prec (pr2 f) ++ [.t "("] ++ commaSep (pr2Args args) ++ [.t ")"]
+  | .index b (.tuple items) =>
+    wrap 16 b.prec (pr2 b) ++ [.t "["] ++
+      (if items.any isSliceB then commaSep (pr2Items items) ++ (if items.length = 1 then [.t ","] else [])
+       else [.t "("] ++ commaSep (pr2Items items) ++ (if items.length = 1 then [.t ","] else []) ++ [.t ")"]) ++ [.t "]"]
+  | .index b i => wrap 16 b.prec (pr2 b) ++ [.t "["] ++ pr2 i ++ [.t "]"]
+  | .slice b e s => pr2Opt b ++ [.t ":"] ++ pr2Opt e ++ pr2Stride s
+  | .op o l r => wrap o.lhs l.prec (pr2 l) ++ [.sp, .t o.text, .sp] ++ wrap o.rhs r.prec (pr2 r)
+  | .cmp f rest => wrap 7 f.prec (pr2 f) ++ pr2Cmp rest
+  | .unary o e => (if o = .not_ then [.t o.text, .sp] else [.t o.text]) ++ wrap o.prec e.prec (pr2 e)
+  | .lambda ps b =>
+    [.t "lambda"] ++ (if ps.isEmpty then [] else .sp :: commaSep (ps.map (fun p => [.name p.1]))) ++ [.t ":", .sp]
+      ++ pr2Opt b
+  | .cond t c e =>
+    wrap 3 t.prec (pr2 t) ++ [.sp, .t "if", .sp] ++ wrap 3 c.prec (pr2 c) ++ [.sp, .t "else", .sp] ++ wrap 1 e.prec (pr2 e)
+  | .await e => [.t "await", .sp] ++ wrap 16 e.prec (pr2 e)
+  | .walrus l r => pr2 l ++ [.sp, .t ":=", .sp] ++ wrap 1 r.prec (pr2 r)
+  | .star e => .t "*" :: wrap 7 e.prec (pr2 e)
+  | .fstr parts => [.t "f\""] ++ pr2Parts parts ++ [.t "\""]
+  | .ffield e conv spec =>
+    [.t "{"] ++ (if startsWithBrace (wrap 3 e.prec (pr2 e)) then [.sp] else []) ++ wrap 3 e.prec (pr2 e)
+      ++ (match conv with | some c => [.t (String.ofList ['!', c])] | none => [])
+      ++ (if spec.isEmpty then [] else if spec.all plainSpecChar then [.t ":", .fspec spec] else [.t ":", .flit spec false])
+      ++ [.t "}"]
+  | .other i => [.hole i]
+def pr2Opt : Option Node → Toks
+  | none => []
+  | some e => wrap 1 e.prec (pr2 e)
+def pr2Stride : Option Node → Toks
+  | none => []
+  | some s => .t ":" :: wrap 1 s.prec (pr2 s)
+def pr2Items : List Node → List Toks
+  | [] => []
+  | x :: xs => wrap 0 x.prec (pr2 x) :: pr2Items xs
+def pr2Dict : List (Option Node × Node) → List Toks
+  | [] => []
+  | (some k, v) :: xs => (wrap 1 k.prec (pr2 k) ++ [.t ":", .sp] ++ wrap 1 v.prec (pr2 v)) :: pr2Dict xs
+  | (none, v) :: xs => (.t "**" :: wrap 7 v.prec (pr2 v)) :: pr2Dict xs
+def pr2Args : List (ArgKind × Str × Node) → List Toks
+  | [] => []
+  | (k, nm, a) :: xs =>
+    (match k with
+      | .named => [.name nm, .t "="] ++ wrap 1 a.prec (pr2 a)
+      | .star => .t "*" :: wrap 1 a.prec (pr2 a)
+      | .star2 => .t "**" :: wrap 1 a.prec (pr2 a)
+      | _ => wrap 0 a.prec (pr2 a)) :: pr2Args xs
+def pr2Cmp : List (CmpOp × Node) → Toks
+  | [] => []
+  | (o, e) :: xs => [.sp, .t o.text, .sp] ++ wrap 7 e.prec (pr2 e) ++ pr2Cmp xs
+def pr2Parts : List Node → Toks
+  | [] => []
+  | .str v :: rest => .flit v (hasBrace v) :: pr2Parts rest
+  | p :: rest => pr2 p ++ pr2Parts rest
+end
+
+mutual
+theorem pr2_eq : (e : Node) → pr2 e = pr e
+  | .name s | .int v | .float s | .complex s | .str v | .bytes v | .ellipsis | .other i => by simp [pr2, pr]
+  | .member e a => by simp [pr2, pr, pr2_eq e]
+  | .dict items => by simp [pr2, pr, pr2Dict_eq items]
+  | .tuple items => by simp [pr2, pr, pr2Items_eq items]
+  | .list items => by simp [pr2, pr, pr2Items_eq items]
+  | .set items => by simp [pr2, pr, pr2Items_eq items]
+  | .call f args => by simp [pr2, pr, pr2_eq f, pr2Args_eq args]
+  | .index b i => by
+    have hb := pr2_eq b
+    have hi := pr2_eq i
+    cases i
+    case tuple items =>
+      have := pr2Items_eq items
+      by_cases h : items.any isSliceB = true <;> simp [pr2, pr, prIndex, hb, this, h]
+    all_goals simp_all [pr2, pr, prIndex]
+  | .slice b e s => by
+    cases s with
+    | none => simp [pr2, pr, pr2Opt_eq b, pr2Opt_eq e, pr2Stride]
+    | some s => simp [pr2, pr, pr2Opt_eq b, pr2Opt_eq e, pr2Stride, pr2_eq s]
+  | .op o l r => by simp [pr2, pr, pr2_eq l, pr2_eq r]
+  | .cmp f rest => by simp [pr2, pr, pr2_eq f, pr2Cmp_eq rest]
+  | .unary o e => by simp [pr2, pr, pr2_eq e]
+  | .lambda ps b => by simp [pr2, pr, pr2Opt_eq b]
+  | .cond t c e => by simp [pr2, pr, pr2_eq t, pr2_eq c, pr2_eq e]
+  | .await e => by simp [pr2, pr, pr2_eq e]
+  | .walrus l r => by simp [pr2, pr, pr2_eq l, pr2_eq r]
+  | .star e => by simp [pr2, pr, pr2_eq e]
+  | .fstr parts => by simp [pr2, pr, pr2Parts_eq parts]
+  | .ffield e conv spec => by cases conv <;> simp [pr2, pr, pr2_eq e]
+theorem pr2Opt_eq : (o : Option Node) → pr2Opt o = prOpt o
+  | none => by simp [pr2Opt, prOpt]
+  | some e => by simp [pr2Opt, prOpt, pr2_eq e]
+theorem pr2Items_eq : (l : List Node) → pr2Items l = prItems l
+  | [] => by simp [pr2Items, prItems]
+  | x :: xs => by simp [pr2Items, prItems, pr2_eq x, pr2Items_eq xs]
+theorem pr2Dict_eq : (l : List (Option Node × Node)) → pr2Dict l = prDict l
+  | [] => by simp [pr2Dict, prDict]
+  | (some k, v) :: xs => by simp [pr2Dict, prDict, pr2_eq k, pr2_eq v, pr2Dict_eq xs]
+  | (none, v) :: xs => by simp [pr2Dict, prDict, pr2_eq v, pr2Dict_eq xs]
+theorem pr2Args_eq : (l : List (ArgKind × Str × Node)) → pr2Args l = prArgs l
+  | [] => by simp [pr2Args, prArgs]
+  | (k, nm, a) :: xs => by cases k <;> simp [pr2Args, prArgs, pr2_eq a, pr2Args_eq xs]
+theorem pr2Cmp_eq : (l : List (CmpOp × Node)) → pr2Cmp l = prCmp l
+  | [] => by simp [pr2Cmp, prCmp]
+  | (o, e) :: xs => by simp [pr2Cmp, prCmp, pr2_eq e, pr2Cmp_eq xs]
+theorem pr2Parts_eq : (l : List Node) → pr2Parts l = prParts l
+  | [] => by simp [pr2Parts, prParts]
+  | p :: rest => by
+    have h1 := pr2_eq p
+    have h2 := pr2Parts_eq rest
+    cases p <;> simp_all [pr2Parts, prParts]
+end
+
+mutual
+def reqs2 (ℓ : Nat) (ni nb : Bool) : Node → List Req
+  | .other i => [⟨i, ℓ, ni, nb⟩]
+  | .member e _ => reqs2 16 true false e
+  | .dict items => reqs2D items
+  | .tuple items => reqs2L items
+  | .list items => reqs2L items
+  | .set items => reqs2L items
+  | .call f args => reqs2 16 false false f ++ reqs2A args
+  | .index b (.tuple items) => reqs2 16 false false b ++ reqs2L items
+  | .index b i => reqs2 16 false false b ++ reqs2 0 false false i
+  | .slice b e s => reqs2O b ++ reqs2O e ++ reqs2O s
+  | .op o l r => reqs2 o.lhs false false l ++ reqs2 o.rhs false false r
+  | .cmp f rest => reqs2 7 false false f ++ reqs2C rest
+  | .unary o e => reqs2 o.prec false false e
+  | .lambda _ b => reqs2O b
+  | .cond t c e => reqs2 3 false false t ++ reqs2 3 false false c ++ reqs2 1 false false e
+  | .await e => reqs2 16 false false e
+  | .walrus _ r => reqs2 1 false false r
+  | .star e => reqs2 7 false false e
+  | .fstr parts => reqs2P parts
+  | .ffield e _ _ => if isHoleB e then reqs2 3 false true e else [⟨0, 18, false, false⟩]
+  | _ => []
+def reqs2O : Option Node → List Req
+  | none => []
+  | some e => reqs2 1 false false e
+def reqs2L : List Node → List Req
+  | [] => []
+  | x :: xs => reqs2 0 false false x ++ reqs2L xs
+def reqs2D : List (Option Node × Node) → List Req
+  | [] => []
+  | (some k, v) :: xs => reqs2 1 false false k ++ reqs2 1 false false v ++ reqs2D xs
+  | (none, v) :: xs => reqs2 7 false false v ++ reqs2D xs
+def reqs2A : List (ArgKind × Str × Node) → List Req
+  | [] => []
+  | (k, _, a) :: xs => reqs2 (if k = .pos then 0 else 1) false false a ++ reqs2A xs
+def reqs2C : List (CmpOp × Node) → List Req
+  | [] => []
+  | (_, e) :: xs => reqs2 7 false false e ++ reqs2C xs
+def reqs2P : List Node → List Req
+  | [] => []
+  | p :: xs => reqs2 0 false false p ++ reqs2P xs
+end
+
+mutual
+theorem reqs2_eq : (e : Node) → (ℓ : Nat) → (ni nb : Bool) → reqs2 ℓ ni nb e = reqs ℓ ni nb e
+  | .name s, _, _, _ | .int v, _, _, _ | .float s, _, _, _ | .complex s, _, _, _ | .str v, _, _, _ | .bytes v, _, _, _
+  | .ellipsis, _, _, _ | .other i, _, _, _ => by simp [reqs2, reqs]
+  | .member e a, _, _, _ => by simp [reqs2, reqs, reqs2_eq e]
+  | .dict items, _, _, _ => by simp [reqs2, reqs, reqs2D_eq items]
+  | .tuple items, _, _, _ => by simp [reqs2, reqs, reqs2L_eq items]
+  | .list items, _, _, _ => by simp [reqs2, reqs, reqs2L_eq items]
+  | .set items, _, _, _ => by simp [reqs2, reqs, reqs2L_eq items]
+  | .call f args, _, _, _ => by simp [reqs2, reqs, reqs2_eq f, reqs2A_eq args]
+  | .index b i, _, _, _ => by
+    have hb := reqs2_eq b
+    have hi := reqs2_eq i
+    cases i
+    case tuple items =>
+      have := reqs2L_eq items
+      simp [reqs2, reqs, reqsI, hb, this]
+    all_goals simp_all [reqs2, reqs, reqsI]
+  | .slice b e s, _, _, _ => by simp [reqs2, reqs, reqs2O_eq b, reqs2O_eq e, reqs2O_eq s]
+  | .op o l r, _, _, _ => by simp [reqs2, reqs, reqs2_eq l, reqs2_eq r]
+  | .cmp f rest, _, _, _ => by simp [reqs2, reqs, reqs2_eq f, reqs2C_eq rest]
+  | .unary o e, _, _, _ => by simp [reqs2, reqs, reqs2_eq e]
+  | .lambda ps b, _, _, _ => by simp [reqs2, reqs, reqs2O_eq b]
+  | .cond t c e, _, _, _ => by simp [reqs2, reqs, reqs2_eq t, reqs2_eq c, reqs2_eq e]
+  | .await e, _, _, _ => by simp [reqs2, reqs, reqs2_eq e]
+  | .walrus l r, _, _, _ => by simp [reqs2, reqs, reqs2_eq r]
+  | .star e, _, _, _ => by simp [reqs2, reqs, reqs2_eq e]
+  | .fstr parts, _, _, _ => by simp [reqs2, reqs, reqs2P_eq parts]
+  | .ffield e conv spec, _, _, _ => by simp [reqs2, reqs, reqs2_eq e]
+theorem reqs2O_eq : (o : Option Node) → reqs2O o = reqsO o
+  | none => by simp [reqs2O, reqsO]
+  | some e => by simp [reqs2O, reqsO, reqs2_eq e]
+theorem reqs2L_eq : (l : List Node) → reqs2L l = reqsL l
+  | [] => by simp [reqs2L, reqsL]
+  | x :: xs => by simp [reqs2L, reqsL, reqs2_eq x, reqs2L_eq xs]
+theorem reqs2D_eq : (l : List (Option Node × Node)) → reqs2D l = reqsD l
+  | [] => by simp [reqs2D, reqsD]
+  | (some k, v) :: xs => by simp [reqs2D, reqsD, reqs2_eq k, reqs2_eq v, reqs2D_eq xs]
+  | (none, v) :: xs => by simp [reqs2D, reqsD, reqs2_eq v, reqs2D_eq xs]
+theorem reqs2A_eq : (l : List (ArgKind × Str × Node)) → reqs2A l = reqsA l
+  | [] => by simp [reqs2A, reqsA]
+  | (k, nm, a) :: xs => by simp [reqs2A, reqsA, reqs2_eq a, reqs2A_eq xs]
+theorem reqs2C_eq : (l : List (CmpOp × Node)) → reqs2C l = reqsC l
+  | [] => by simp [reqs2C, reqsC]
+  | (o, e) :: xs => by simp [reqs2C, reqsC, reqs2_eq e, reqs2C_eq xs]
+theorem reqs2P_eq : (l : List Node) → reqs2P l = reqsP l
+  | [] => by simp [reqs2P, reqsP]
+  | p :: xs => by simp [reqs2P, reqsP, reqs2_eq p, reqs2P_eq xs]
+end
+
+mutual
+def wf2 : Node → Bool
+  | .name s => isName s
+  | .member e a => wf2 e && isIdent a
+  | .int v => decide (0 ≤ v)
+  | .float s => isNumText s
+  | .complex s => isNumText s
+  | .str _ => true
+  | .bytes _ => true
+  | .ellipsis => true
+  | .dict items => wf2Dict items
+  | .tuple items => wf2Items false items
+  | .list items => wf2Items false items
+  | .set items => !items.isEmpty && wf2Items false items
+  | .call f args => wf2 f && wf2Args args && argsOrdered (args.map (·.1))
+  | .index b (.slice s e st) => wf2 b && (wf2Opt s && wf2Opt e && wf2Opt st)
+  | .index b (.tuple items) => wf2 b && wf2Items (items.any isSliceB) items
+  | .index b i => wf2 b && wf2 i
+  | .slice .. => false
+  | .op _ l r => wf2 l && wf2 r
+  | .cmp f rest => wf2 f && !rest.isEmpty && wf2Cmp rest
+  | .unary _ e => wf2 e
+  | .lambda ps b => ps.all (fun p => p.2 = .pos && isIdent p.1) && wf2Body b
+  | .cond t c e => wf2 t && wf2 c && wf2 e
+  | .await e => wf2 e
+  | .walrus l r => (match l with | .name s => isIdent s | _ => false) && wf2 r
+  | .star _ => false
+  | .fstr parts => wf2Parts parts && parts.any isFieldB && noAdjLits parts
+  | .ffield .. => false
+  | .other _ => false
+def wf2Opt : Option Node → Bool
+  | none => true
+  | some e => wf2 e
+def wf2Body : Option Node → Bool
+  | none => false
+  | some e => wf2 e
+def wf2Items (sl : Bool) : List Node → Bool
+  | [] => true
+  | .star e :: rest => wf2 e && wf2Items sl rest
+  | .slice b e s :: rest => sl && wf2Opt b && wf2Opt e && wf2Opt s && wf2Items sl rest
+  | x :: rest => wf2 x && wf2Items sl rest
+def wf2Dict : List (Option Node × Node) → Bool
+  | [] => true
+  | (k, v) :: rest => wf2Opt k && wf2 v && wf2Dict rest
+def wf2Args : List (ArgKind × Str × Node) → Bool
+  | [] => true
+  | (k, nm, a) :: rest =>
+    (match k with
+      | .pos | .star | .star2 => true
+      | .named => isIdent nm
+      | _ => false) && wf2 a && wf2Args rest
+def wf2Cmp : List (CmpOp × Node) → Bool
+  | [] => true
+  | (_, e) :: rest => wf2 e && wf2Cmp rest
+def wf2Parts : List Node → Bool
+  | [] => true
+  | .str v :: rest => !v.isEmpty && wf2Parts rest
+  | .ffield e conv spec :: rest =>
+    wf2 e && (match conv with | some c => isConv c | none => true) && !hasBrace spec && wf2Parts rest
+  | _ :: _ => false
+end
+
+mutual
+theorem wf2_eq : (e : Node) → wf2 e = wf e
+  | .name s | .int v | .float s | .complex s | .str v | .bytes v | .ellipsis | .other i => by simp [wf2, wf]
+  | .member e a => by simp [wf2, wf, wf2_eq e]
+  | .dict items => by simp [wf2, wf, wf2Dict_eq items]
+  | .tuple items => by simp [wf2, wf, wf2Items_eq false items]
+  | .list items => by simp [wf2, wf, wf2Items_eq false items]
+  | .set items => by simp [wf2, wf, wf2Items_eq false items]
+  | .call f args => by simp [wf2, wf, wf2_eq f, wf2Args_eq args]
+  | .index b i => by
+    have hb := wf2_eq b
+    have hi := wf2_eq i
+    cases i
+    case tuple items =>
+      have := wf2Items_eq (items.any isSliceB) items
+      simp [wf2, wf, wfIndex, hb, this]
+    case slice s e st =>
+      simp [wf2, wf, wfIndex, hb, wf2Opt_eq s, wf2Opt_eq e, wf2Opt_eq st]
+    all_goals simp_all [wf2, wf, wfIndex]
+  | .slice b e s => by simp [wf2, wf]
+  | .op o l r => by simp [wf2, wf, wf2_eq l, wf2_eq r]
+  | .cmp f rest => by simp [wf2, wf, wf2_eq f, wf2Cmp_eq rest]
+  | .unary o e => by simp [wf2, wf, wf2_eq e]
+  | .lambda ps b => by cases b <;> simp [wf2, wf, wf2Body, wf2_eq]
+  | .cond t c e => by simp [wf2, wf, wf2_eq t, wf2_eq c, wf2_eq e]
+  | .await e => by simp [wf2, wf, wf2_eq e]
+  | .walrus l r => by cases l <;> simp [wf2, wf, wf2_eq r]
+  | .star e => by simp [wf2, wf]
+  | .fstr parts => by simp [wf2, wf, wf2Parts_eq parts]
+  | .ffield e conv spec => by simp [wf2, wf]
+theorem wf2Opt_eq : (o : Option Node) → wf2Opt o = wfOpt o
+  | none => by simp [wf2Opt, wfOpt]
+  | some e => by simp [wf2Opt, wfOpt, wf2_eq e]
+theorem wf2Items_eq : (sl : Bool) → (l : List Node) → wf2Items sl l = wfItems sl l
+  | _, [] => by simp [wf2Items, wfItems]
+  | sl, x :: rest => by
+    have hx := wf2_eq x
+    have hr := wf2Items_eq sl rest
+    cases x
+    case star e => simp [wf2Items, wfItems, wf2_eq e, hr]
+    case slice b e s => simp [wf2Items, wfItems, wf2Opt_eq b, wf2Opt_eq e, wf2Opt_eq s, hr]
+    all_goals simp_all [wf2Items, wfItems]
+theorem wf2Dict_eq : (l : List (Option Node × Node)) → wf2Dict l = wfDict l
+  | [] => by simp [wf2Dict, wfDict]
+  | (k, v) :: rest => by simp [wf2Dict, wfDict, wf2Opt_eq k, wf2_eq v, wf2Dict_eq rest]
+theorem wf2Args_eq : (l : List (ArgKind × Str × Node)) → wf2Args l = wfArgs l
+  | [] => by simp [wf2Args, wfArgs]
+  | (k, nm, a) :: rest => by cases k <;> simp [wf2Args, wfArgs, wf2_eq a, wf2Args_eq rest]
+theorem wf2Cmp_eq : (l : List (CmpOp × Node)) → wf2Cmp l = wfCmp l
+  | [] => by simp [wf2Cmp, wfCmp]
+  | (o, e) :: rest => by simp [wf2Cmp, wfCmp, wf2_eq e, wf2Cmp_eq rest]
+theorem wf2Parts_eq : (l : List Node) → wf2Parts l = wfParts l
+  | [] => by simp [wf2Parts, wfParts]
+  | p :: rest => by
+    have hr := wf2Parts_eq rest
+    cases p
+    case str v => simp [wf2Parts, wfParts, hr]
+    case ffield e conv spec => cases conv <;> simp [wf2Parts, wfParts, wf2_eq e, hr]
+    all_goals simp [wf2Parts, wfParts]
+end
+
+/-! ### Fragments that are not bare expressions: `target = value`, `for target in iterable`, `in operand`
+
+The messages of the checks also quote an assignment (FURB188 `{0} = {0}.removesuffix({1})`), the head of a `for`
+loop (FURB135 `for {0} in {1}.values()`) and the tail of a membership test (FURB130 `in {0}`).  `Frag` is such a
+fragment as a tree, `prFrag` its reference text, `DerFrag` Python's grammar for it on top of `Der`. -/
+
+/-- a quoted fragment as a tree -/
+inductive Frag where
+  /-- an expression -/
+  | expr (e : Node)
+  /-- `assignment: star_targets '=' star_expressions` with one target -/
+  | assign (t v : Node)
+  /-- `'for' star_targets 'in' star_expressions` (the head of a loop or of a comprehension clause) -/
+  | forIn (t e : Node)
+  /-- `compare_op_bitwise_or_pair`: `'in' bitwise_or` / `'not' 'in' bitwise_or` -/
+  | inTail (neg : Bool) (e : Node)
+  deriving Repr, Inhabited
+
+mutual
+/-- what Python accepts left of `=` / after `for`: a name, an attribute, a subscript, a tuple or list of these -/
+def isTargetN : Node → Bool
+  | .name s => isIdent s
+  | .member .. => true
+  | .index .. => true
+  | .tuple items => !items.isEmpty && isTargetL items
+  | .list items => !items.isEmpty && isTargetL items
+  | _ => false
+def isTargetL : List Node → Bool
+  | [] => true
+  | x :: xs => isTargetN x && isTargetL xs
+end
+
+def inText (neg : Bool) : String := if neg then "not in" else "in"
+
+/-- the reference text of a fragment (components through `wrap`, like the children of an expression) -/
+def prFrag : Frag → Toks
+  | .expr e => wrap 1 e.prec (pr e)
+  | .assign t v => wrap 16 t.prec (pr t) ++ [.sp, .t "=", .sp] ++ wrap 1 v.prec (pr v)
+  | .forIn t e => [.t "for", .sp] ++ wrap 16 t.prec (pr t) ++ [.sp, .t "in", .sp] ++ wrap 1 e.prec (pr e)
+  | .inTail neg e => [.t (inText neg), .sp] ++ wrap 7 e.prec (pr e)
+
+/-- Python's grammar for the fragment forms: a target is a primary whose tree has the shape of a target; the right
+    side of `=` and the iterable of `for` are expressions (level 1), the operand of `in` is a `bitwise_or` (7) -/
+inductive DerFrag : Toks → Frag → Prop
+  | expr {ts e} : Der 1 ts e → DerFrag ts (.expr e)
+  | assign {tt t tv v} : Der 16 tt t → isTargetN t = true → Der 1 tv v →
+      DerFrag (tt ++ [.sp, .t "=", .sp] ++ tv) (.assign t v)
+  | forIn {tt t te e} : Der 16 tt t → isTargetN t = true → Der 1 te e →
+      DerFrag ([.t "for", .sp] ++ tt ++ [.sp, .t "in", .sp] ++ te) (.forIn t e)
+  | inTail {neg te e} : Der 7 te e → DerFrag ([.t (inText neg), .sp] ++ te) (.inTail neg e)
+
+def fillF (σ : Nat → Node) : Frag → Frag
+  | .expr e => .expr (fillN σ e)
+  | .assign t v => .assign (fillN σ t) (fillN σ v)
+  | .forIn t e => .forIn (fillN σ t) (fillN σ e)
+  | .inTail neg e => .inTail neg (fillN σ e)
+
+/-- the demands of the holes of a fragment -/
+def reqsF : Frag → List Req
+  | .expr e => reqs 1 false false e
+  | .assign t v => reqs 16 false false t ++ reqs 1 false false v
+  | .forIn t e => reqs 16 false false t ++ reqs 1 false false e
+  | .inTail _ e => reqs 7 false false e
+
+/-- the fragment's own structure is well-formed (holes taken for identifiers) -/
+def wfF : Frag → Bool
+  | .expr e => wfT e
+  | .assign t v => wfT t && wfT v
+  | .forIn t e => wfT t && wfT e
+  | .inTail _ e => wfT e
+
+/-- the target of the filled fragment, if the form has one -/
+def Frag.target? : Frag → Option Node
+  | .assign t _ => some t
+  | .forIn t _ => some t
+  | _ => none
+
+/-- **Fragment in hole, for every quoted form.** If the text put into every hole derives at the level the hole's
+    position requires, and what ends up left of `=` / after `for` has the shape of a target, the filled fragment is
+    derived by Python's grammar as the fragment's tree over the operands. Any fragment, any operands. -/
+theorem fragment_in_form (F : Frag) (f : Nat → Toks) (σ : Nat → Node) (hT : wfF F = true)
+    (h : ∀ r ∈ reqsF F, Meets f σ r) (ht : ∀ t, F.target? = some t → isTargetN (fillN σ t) = true) :
+    DerFrag (fillT f (prFrag F)) (fillF σ F) := by
+  cases F with
+  | expr e =>
+    exact DerFrag.expr (fill_sub f σ e 1 (by omega) false false (by simpa [wfF, wfT] using hT) (by simpa [reqsF] using h))
+  | assign t v =>
+    have ⟨h1, h2⟩ : wfT t = true ∧ wfT v = true := by simpa [wfF] using hT
+    have hr : ∀ r ∈ reqs 16 false false t ++ reqs 1 false false v, Meets f σ r := by simpa [reqsF] using h
+    have := DerFrag.assign (fill_sub f σ t 16 (by omega) false false h1 (fun r hh => hr r (List.mem_append_left _ hh)))
+      (ht t rfl) (fill_sub f σ v 1 (by omega) false false h2 (fun r hh => hr r (List.mem_append_right _ hh)))
+    simpa [prFrag, fillF] using this
+  | forIn t e =>
+    have ⟨h1, h2⟩ : wfT t = true ∧ wfT e = true := by simpa [wfF] using hT
+    have hr : ∀ r ∈ reqs 16 false false t ++ reqs 1 false false e, Meets f σ r := by simpa [reqsF] using h
+    have := DerFrag.forIn (fill_sub f σ t 16 (by omega) false false h1 (fun r hh => hr r (List.mem_append_left _ hh)))
+      (ht t rfl) (fill_sub f σ e 1 (by omega) false false h2 (fun r hh => hr r (List.mem_append_right _ hh)))
+    simpa [prFrag, fillF] using this
+  | inTail neg e =>
+    have := DerFrag.inTail (neg := neg) (fill_sub f σ e 7 (by omega) false false (by simpa [wfF, wfT] using hT)
+      (by simpa [reqsF] using h))
+    simpa [prFrag, fillF] using this
+
+/-! ### Comparing a regenerated template with the committed ones -/
+
+/-- the holes of a text in order of first occurrence -/
+def holeOrder : Toks → List Nat
+  | [] => []
+  | .hole i :: ts => i :: (holeOrder ts).filter (· ≠ i)
+  | _ :: ts => holeOrder ts
+
+def renumTok (o : List Nat) : Tok → Tok
+  | .hole i => .hole (o.idxOf i)
+  | t => t
+
+/-- a template up to the numbering of its holes: its text and the demands of its holes, holes renumbered by first
+    occurrence in the text -/
+def canonForm (T : Node) : Toks × List Req :=
+  let ts := wrap 1 T.prec (pr T)
+  let o := holeOrder ts
+  (ts.map (renumTok o), (reqs 1 false false T).map (fun r => { r with hole := o.idxOf r.hole }))
+
+open T in
+/-- the hand-written table does not list every variant of the messages of the checks it covers; these are the
+    missing ones, classified here (same conventions as `templates` in Model/Stringify.lean) -/
+def templatesMore : List Template := [
+  ⟨"FURB116", "new", .fstr [.ffield (h 0) none ['o']]⟩,                          -- `f"{{0}:o}"`
+  ⟨"FURB116", "new", .fstr [.ffield (h 0) none ['x']]⟩,
+  ⟨"FURB117", "old", call (nm "open") [call (nm "str") [h 0], h 1]⟩,            -- `open(str({0}), {1})`
+  ⟨"FURB117", "old", call (nm "open") [h 0, h 1]⟩,
+  ⟨"FURB117", "new", meth (h 0) "open" [h 1]⟩,
+  ⟨"FURB118", "new", att (nm "operator") "invert"⟩,
+  ⟨"FURB118", "new", att (nm "operator") "neg"⟩,
+  ⟨"FURB118", "new", att (nm "operator") "not_"⟩,
+  ⟨"FURB118", "new", att (nm "operator") "pos"⟩,
+  ⟨"FURB118", "new", att (nm "list") "copy"⟩,
+  ⟨"FURB130", "new", .cmp (nm "_") [(.notIn, h 0)]⟩,                            -- `not in {0}`
+  ⟨"FURB166", "old", .call (nm "int") [(.pos, [], .index (h 0) (.slice (some (.int 2)) none none)),
+      (.named, "base".toList, h 1)]⟩,                                            -- `int({0}[2:], base={1})`
+  ⟨"FURB166", "new", .call (nm "int") [(.pos, [], h 0), (.named, "base".toList, .int 0)]⟩,
+  ⟨"FURB169", "old", .cmp (call (nm "type") [h 0]) [(.eq, call (nm "type") [nm "None"])]⟩,
+  ⟨"FURB169", "old", .cmp (call (nm "type") [h 0]) [(.ne, call (nm "type") [nm "None"])]⟩,
+  ⟨"FURB171", "new", .cmp (h 0) [(.ne, h 1)]⟩,                                  -- `{0} != {1}`
+  ⟨"FURB173", "new", .set [h 0]⟩,                                               -- `{{0}}`, the hole a joined list
+  ⟨"FURB181", "old", meth (meth (h 0) "digest" [h 1]) "hex" []⟩,
+  ⟨"FURB181", "new", meth (h 0) "hexdigest" [h 1]⟩,
+  ⟨"FURB186", "new", meth (h 0) "sort" [h 1]⟩,                                  -- `{0}.sort({1})`, `{1}` joined arguments
+  ⟨"FURB192", "new", .call (nm "max") [(.pos, [], h 0), (.named, "key".toList, h 1)]⟩,
+  ⟨"FURB192", "new", .call (nm "min") [(.pos, [], h 0), (.named, "key".toList, h 1)]⟩
+]
+
+/-- the committed classification: Model `templates` and the supplement -/
+def committed : List Template := templates ++ templatesMore
+
+/-! ### A necessary condition for a text to parse as an expression: every `:=` is introduced by a bracket or comma -/
+
+def isWal : Tok → Bool
+  | .t s => s == ":="
+  | _ => false
+
+def isOpn : Tok → Bool
+  | .t s => s == "(" || s == "[" || s == "{" || s == ","
+  | _ => false
+
+/-- number of `:=` tokens -/
+def wal (ts : Toks) : Nat := ts.countP isWal
+/-- number of opening brackets and commas -/
+def opn (ts : Toks) : Nat := ts.countP isOpn
+def walL (tss : List Toks) : Nat := (tss.map wal).sum
+def opnL (tss : List Toks) : Nat := (tss.map opn).sum
+
+@[simp] theorem wal_nil : wal [] = 0 := rfl
+@[simp] theorem opn_nil : opn [] = 0 := rfl
+@[simp] theorem wal_append (a b : Toks) : wal (a ++ b) = wal a + wal b := by simp [wal]
+@[simp] theorem opn_append (a b : Toks) : opn (a ++ b) = opn a + opn b := by simp [opn]
+@[simp] theorem wal_cons (t : Tok) (ts : Toks) : wal (t :: ts) = (if isWal t then 1 else 0) + wal ts := by
+  simp [wal, List.countP_cons]; omega
+@[simp] theorem opn_cons (t : Tok) (ts : Toks) : opn (t :: ts) = (if isOpn t then 1 else 0) + opn ts := by
+  simp [opn, List.countP_cons]; omega
+@[simp] theorem walL_nil : walL [] = 0 := rfl
+@[simp] theorem opnL_nil : opnL [] = 0 := rfl
+@[simp] theorem walL_cons (a : Toks) (l : List Toks) : walL (a :: l) = wal a + walL l := by simp [walL]
+@[simp] theorem opnL_cons (a : Toks) (l : List Toks) : opnL (a :: l) = opn a + opnL l := by simp [opnL]
+
+theorem wal_commaSep : ∀ tss : List Toks, wal (commaSep tss) = walL tss
+  | [] => by simp [commaSep]
+  | [a] => by simp [commaSep]
+  | a :: b :: rest => by
+    have := wal_commaSep (b :: rest)
+    simp [commaSep, isWal] at this ⊢
+    omega
+
+theorem opn_commaSep : ∀ tss : List Toks, opn (commaSep tss) + 1 = opnL tss + tss.length ∨ tss = []
+  | [] => Or.inr rfl
+  | [a] => by simp [commaSep]
+  | a :: b :: rest => by
+    have := opn_commaSep (b :: rest)
+    simp [commaSep, isOpn] at this ⊢
+    omega
+
+theorem walL_names (ps : List (Str × ArgKind)) : walL (ps.map (fun p => [Tok.name p.1])) = 0 := by
+  induction ps with
+  | nil => rfl
+  | cons p ps ih => simp [ih, isWal]
+
+theorem isWal_binop (o : BinOp) : isWal (.t o.text) = false := by cases o <;> decide
+theorem isWal_cmpop (o : CmpOp) : isWal (.t o.text) = false := by cases o <;> decide
+theorem isWal_unop (o : UnOp) : isWal (.t o.text) = false := by cases o <;> decide
+theorem isWal_conv (c : Char) : isWal (.t (String.ofList ['!', c])) = false := by
+  simp only [isWal, beq_eq_false_iff_ne, ne_eq]
+  intro h
+  have := congrArg String.toList h
+  simp at this
+
+theorem bang_push_ne (c : Char) : ("!".push c = ":=") = False := by
+  simp only [eq_iff_iff, iff_false]
+  intro h
+  have := congrArg String.toList h
+  simp at this
+
+mutual
+theorem der_wal : {ℓ : Nat} → {ts : Toks} → {e : Node} → Der ℓ ts e → wal ts ≤ opn ts + (if ℓ = 0 then 1 else 0)
+  | _, _, _, .up hnm d => by
+    have := der_wal d
+    split at this <;> split <;> omega
+  | _, _, _, .paren d => by have := der_wal d; simp [isWal, isOpn] at this ⊢; omega
+  | _, _, _, .name _ | _, _, _, .int _ | _, _, _, .float _ | _, _, _, .complex _ | _, _, _, .str _ | _, _, _, .bytes _
+  | _, _, _, .ellipsis => by simp [isWal]
+  | _, _, _, .member d _ _ => by have := der_wal d; simp [isWal, isOpn] at this ⊢; omega
+  | _, _, _, .memberP d _ => by have := der_wal d; simp [isWal, isOpn] at this ⊢; omega
+  | _, _, _, .call (tas := tas) d a _ => by
+    have h1 := der_wal d
+    have h2 := args_wal a
+    have h3 := wal_commaSep tas
+    have h4 := opn_commaSep tas
+    simp [isWal, isOpn] at h1 ⊢
+    rcases h4 with h4 | h4
+    · omega
+    · subst h4; simp [commaSep] at h2 h3 ⊢ <;> omega
+  | _, _, _, .index d i => by
+    have h1 := der_wal d
+    have h2 := index_wal i
+    simp [isWal, isOpn] at h1 ⊢; omega
+  | _, _, _, .binop (o := o) dl dr => by
+    have h1 := der_wal dl
+    have h2 := der_wal dr
+    have := isWal_binop o
+    cases o <;> simp [isWal, isOpn, BinOp.text, BinOp.lhs, BinOp.rhs, BinOp.prec] at h1 h2 ⊢ <;> omega
+  | _, _, _, .cmp d r _ => by
+    have h1 := der_wal d
+    have h2 := cmp_wal r
+    simp at h1 ⊢; omega
+  | _, _, _, .not_ d => by have := der_wal d; simp [isWal, isOpn] at this ⊢; omega
+  | _, _, _, .unary (o := o) _ d => by
+    have h := der_wal d
+    have := isWal_unop o
+    simp [this] at h ⊢; omega
+  | _, _, _, .lambda (ps := ps) _ d => by
+    have h := der_wal d
+    have h3 := wal_commaSep (ps.map (fun p => [Tok.name p.1]))
+    have h4 := walL_names ps
+    by_cases hp : ps.isEmpty = true <;> simp [hp, isWal, isOpn, h3, h4] at h ⊢ <;> omega
+  | _, _, _, .cond d1 d2 d3 => by
+    have h1 := der_wal d1; have h2 := der_wal d2; have h3 := der_wal d3
+    simp [isWal, isOpn] at h1 h2 h3 ⊢; omega
+  | _, _, _, .await d => by have := der_wal d; simp [isWal, isOpn] at this ⊢; omega
+  | _, _, _, .walrus _ d => by have := der_wal d; simp [isWal, isOpn] at this ⊢; omega
+  | _, _, _, .tuple (tss := tss) (items := items) d => by
+    have h2 := items_wal d
+    have h3 := wal_commaSep tss
+    have h4 := opn_commaSep tss
+    by_cases h1 : items.length = 1 <;> simp [isWal, isOpn, h1] <;> rcases h4 with h4 | h4 <;>
+      first | omega | (subst h4; simp [commaSep] at h2 h3 ⊢ <;> omega)
+  | _, _, _, .list (tss := tss) d => by
+    have h2 := items_wal d
+    have h3 := wal_commaSep tss
+    have h4 := opn_commaSep tss
+    simp [isWal, isOpn]
+    rcases h4 with h4 | h4
+    · omega
+    · subst h4; simp [commaSep] at h2 h3 ⊢ <;> omega
+  | _, _, _, .set (tss := tss) d _ => by
+    have h2 := items_wal d
+    have h3 := wal_commaSep tss
+    have h4 := opn_commaSep tss
+    simp [isWal, isOpn]
+    rcases h4 with h4 | h4
+    · omega
+    · subst h4; simp [commaSep] at h2 h3 ⊢ <;> omega
+  | _, _, _, .dict (tss := tss) d => by
+    have h2 := dict_wal d
+    have h3 := wal_commaSep tss
+    have h4 := opn_commaSep tss
+    simp [isWal, isOpn]
+    rcases h4 with h4 | h4
+    · omega
+    · subst h4; simp [commaSep] at h2 h3 ⊢ <;> omega
+  | _, _, _, .fstr d _ _ => by have := parts_wal d; simp [isWal, isOpn] at this ⊢; omega
+
+theorem opt_wal : {ts : Toks} → {o : Option Node} → DerOpt ts o → wal ts ≤ opn ts
+  | _, _, .none => by simp
+  | _, _, .some d => by have := der_wal d; simpa using this
+
+theorem items_wal : {sl : Bool} → {tss : List Toks} → {items : List Node} → DerItems sl tss items →
+    walL tss ≤ opnL tss + tss.length
+  | _, _, _, .nil => by simp
+  | _, _, _, .star d r => by
+    have h1 := der_wal d; have h2 := items_wal r
+    simp [isWal, isOpn] at h1 ⊢; omega
+  | _, _, _, .expr d r => by
+    have h1 := der_wal d; have h2 := items_wal r
+    simp at h1 ⊢; omega
+  | _, _, _, .slice (s := s) b e st r => by
+    have h1 := opt_wal b; have h2 := opt_wal e; have h3 := opt_wal st; have h4 := items_wal r
+    cases s <;> simp [isWal, isOpn] at h3 ⊢ <;> omega
+
+theorem dict_wal : {tss : List Toks} → {items : List (Option Node × Node)} → DerDict tss items → walL tss ≤ opnL tss
+  | _, _, .nil => by simp
+  | _, _, .kv dk dv r => by
+    have h1 := der_wal dk; have h2 := der_wal dv; have h3 := dict_wal r
+    simp [isWal, isOpn] at h1 h2 ⊢; omega
+  | _, _, .spread dv r => by
+    have h2 := der_wal dv; have h3 := dict_wal r
+    simp [isWal, isOpn] at h2 ⊢; omega
+
+theorem args_wal : {tss : List Toks} → {args : List (ArgKind × Str × Node)} → DerArgs tss args →
+    walL tss ≤ opnL tss + tss.length
+  | _, _, .nil => by simp
+  | _, _, .pos d r => by
+    have h1 := der_wal d; have h2 := args_wal r
+    simp at h1 ⊢; omega
+  | _, _, .named _ d r => by
+    have h1 := der_wal d; have h2 := args_wal r
+    simp [isWal, isOpn] at h1 ⊢; omega
+  | _, _, .star d r => by
+    have h1 := der_wal d; have h2 := args_wal r
+    simp [isWal, isOpn] at h1 ⊢; omega
+  | _, _, .star2 d r => by
+    have h1 := der_wal d; have h2 := args_wal r
+    simp [isWal, isOpn] at h1 ⊢; omega
+
+theorem cmp_wal : {ts : Toks} → {rest : List (CmpOp × Node)} → DerCmp ts rest → wal ts ≤ opn ts
+  | _, _, .nil => by simp
+  | _, _, .cons (o := o) d r => by
+    have h1 := der_wal d; have h2 := cmp_wal r
+    cases o <;> simp [isWal, isOpn, CmpOp.text] at h1 ⊢ <;> omega
+
+theorem index_wal : {ts : Toks} → {i : Node} → DerIndex ts i → wal ts ≤ opn ts + 1
+  | _, _, .slice (s := s) b e st => by
+    have h1 := opt_wal b; have h2 := opt_wal e; have h3 := opt_wal st
+    cases s <;> simp [isWal, isOpn] at h3 ⊢ <;> omega
+  | _, _, .slices (tss := tss) (items := items) d _ => by
+    have h2 := items_wal d
+    have h3 := wal_commaSep tss
+    have h4 := opn_commaSep tss
+    by_cases h1 : items.length = 1 <;> simp [isWal, isOpn, h1] <;> rcases h4 with h4 | h4 <;>
+      first | omega | (subst h4; simp [commaSep] at h2 h3 ⊢ <;> omega)
+  | _, _, .expr d => by have := der_wal d; simp at this ⊢; omega
+
+theorem parts_wal : {ts : Toks} → {ps : List Node} → DerParts ts ps → wal ts ≤ opn ts
+  | _, _, .nil => by simp
+  | _, _, .lit _ _ r => by have := parts_wal r; simp [isWal, isOpn] at this ⊢; omega
+  | _, _, .field (te := te) (conv := conv) (spec := spec) d _ _ r => by
+    have h1 := der_wal d; have h2 := parts_wal r
+    by_cases hb : startsWithBrace te = true <;> cases conv <;> by_cases hs : spec.isEmpty = true <;>
+      by_cases hp : spec.all plainSpecChar = true <;> simp [isWal, isOpn, hb, hs, hp, bang_push_ne] at h1 ⊢ <;> omega
+end
+
+/-- **A text with more `:=` than opening brackets and commas is not an expression.** In Python's grammar a named
+    expression only occurs directly inside a bracket or after a comma (a parenthesised expression, a call argument, a
+    subscript, a display item); so at any level above 0, `:=` tokens cannot outnumber `(`, `[`, `{` and `,` tokens. -/
+theorem not_der_of_wal {ℓ : Nat} {ts : Toks} (hℓ : 1 ≤ ℓ) (h : opn ts < wal ts) (e : Node) : ¬ Der ℓ ts e := by
+  intro d
+  have := der_wal d
+  have h0 : ¬ ℓ = 0 := by omega
+  simp [h0] at this
+  omega
+
+/-! ### The same on the executable twins (what a `decide` over a table evaluates) -/
+
+def wfT2 (T : Node) : Bool := wf2 (fillN (fun _ => dummy) T)
+
+theorem wfT2_eq (T : Node) : wfT2 T = wfT T := by simp [wfT2, wfT, wf2_eq]
+
+def prFrag2 : Frag → Toks
+  | .expr e => wrap 1 e.prec (pr2 e)
+  | .assign t v => wrap 16 t.prec (pr2 t) ++ [.sp, .t "=", .sp] ++ wrap 1 v.prec (pr2 v)
+  | .forIn t e => [.t "for", .sp] ++ wrap 16 t.prec (pr2 t) ++ [.sp, .t "in", .sp] ++ wrap 1 e.prec (pr2 e)
+  | .inTail neg e => [.t (inText neg), .sp] ++ wrap 7 e.prec (pr2 e)
+
+theorem prFrag2_eq (F : Frag) : prFrag2 F = prFrag F := by cases F <;> simp [prFrag2, prFrag, pr2_eq]
+
+def reqsF2 : Frag → List Req
+  | .expr e => reqs2 1 false false e
+  | .assign t v => reqs2 16 false false t ++ reqs2 1 false false v
+  | .forIn t e => reqs2 16 false false t ++ reqs2 1 false false e
+  | .inTail _ e => reqs2 7 false false e
+
+theorem reqsF2_eq (F : Frag) : reqsF2 F = reqsF F := by cases F <;> simp [reqsF2, reqsF, reqs2_eq]
+
+def wfF2 : Frag → Bool
+  | .expr e => wfT2 e
+  | .assign t v => wfT2 t && wfT2 v
+  | .forIn t e => wfT2 t && wfT2 e
+  | .inTail _ e => wfT2 e
+
+theorem wfF2_eq (F : Frag) : wfF2 F = wfF F := by cases F <;> simp [wfF2, wfF, wfT2_eq]
+
+def canonForm2 (T : Node) : Toks × List Req :=
+  let ts := wrap 1 T.prec (pr2 T)
+  let o := holeOrder ts
+  (ts.map (renumTok o), (reqs2 1 false false T).map (fun r => { r with hole := o.idxOf r.hole }))
+
+theorem canonForm2_eq (T : Node) : canonForm2 T = canonForm T := by simp [canonForm2, canonForm, pr2_eq, reqs2_eq]
+
 end RefurbVerif.C02
